@@ -779,6 +779,20 @@ func Run(prog *ssa.Program, inMod func(*ssa.Function) bool) *Result {
 						res.Sites = append(res.Sites, o)
 					}
 					continue
+				case *ssa.SliceToArrayPointer:
+					// (*[N]T)(s) and [N]T(s) panic when len(s) < N
+					if pt, ok := v.Type().Underlying().(*types.Pointer); ok {
+						if at, ok := pt.Elem().Underlying().(*types.Array); ok {
+							facts, dq := s.factsAt(b, idx)
+							o := Site{Pos: in.Pos(), Fn: f, Instr: in, Kind: "convert", What: in.String(), OK: true}
+							if g := le(konst(at.Len()), s.lenOf(v.X)); !s.entails(facts, dq, g) {
+								o.OK = false
+								o.WhyNot = fmt.Sprintf("len(slice) >= %d not proved [%s]", at.Len(), g.String())
+							}
+							res.Sites = append(res.Sites, o)
+						}
+					}
+					continue
 				case *ssa.MakeSlice:
 					facts, dq := s.factsAt(b, idx)
 					o := Site{Pos: in.Pos(), Fn: f, Instr: in, Kind: "make", What: in.String(), OK: true}
